@@ -398,7 +398,31 @@ func c11RunE2E(t *testing.T, lane string, alt bool, n int, rule string) {
 				}
 			}
 		}
+		// what the policies are shown: the installed closure is wrapped for the duration of the call and
+		// every (req, via) it is asked about is recorded — URL.Host of each LIVE request object, so a
+		// transport (Alt-Svc carrier, HTTP/2, …) rewriting a request in flight shows up on any hop
+		type c11Asked struct {
+			req string
+			via []string
+		}
+		var asked []c11Asked
+		origCheck := cl.httpClient.CheckRedirect
+		cl.httpClient.CheckRedirect = func(q *http.Request, via []*http.Request) error {
+			a := c11Asked{req: q.URL.Host}
+			for _, v := range via {
+				a.via = append(a.via, v.URL.Host)
+			}
+			asked = append(asked, a)
+			if origCheck == nil {
+				if len(via) >= 10 {
+					return fmt.Errorf("stopped after 10 redirects")
+				}
+				return nil
+			}
+			return origCheck(q, via)
+		}
 		resp, err := rq.Get(farm.scheme + "://" + c11URLHost(auths[0]) + "/0")
+		cl.httpClient.CheckRedirect = origCheck
 		if commonHost {
 			cl.Headers.Del("Host")
 		}
@@ -474,8 +498,21 @@ func c11RunE2E(t *testing.T, lane string, alt bool, n int, rule string) {
 		if urlRewritten != "" {
 			ok = false
 		}
-		detail := ""
-		if !ok {
+		viaNote := ""
+		for k, a := range asked {
+			// the k-th question is about hop k+1 and shows exactly the authorities of hops 0..k, as the
+			// caller / the Location headers wrote them
+			if k+1 >= len(auths) || a.req != auths[k+1] || strings.Join(a.via, ",") != strings.Join(auths[:k+1], ",") {
+				ok = false
+				viaNote = fmt.Sprintf("CheckRedirect call %d was shown req=%s via=%v, the chain is %v", k+1, a.req, a.via, auths)
+				break
+			}
+		}
+		if len(asked) > 0 {
+			s.Count("checkredirect-observed")
+		}
+		detail := viaNote
+		if !ok && detail == "" {
 			detail = fmt.Sprintf("requests received %d, oracle allows %d, dials %d", len(recs), want, len(dials))
 		}
 		// every connection went to the hostname of the hop it was for
@@ -560,7 +597,7 @@ func c11RunE2E(t *testing.T, lane string, alt bool, n int, rule string) {
 		s.Case(line, ans, ok, class, m > 0, human)
 	}
 	must := []string{"direct", "reused-client", "family:original", "family:set-on-clone", "family:clone-of-clone-inherits", "family:clone-inherits,parent-reconfigured-later", "family:clone-inherits", "outcome:final", "outcome:refused", "outcome:last", "cross-origin-strip", "pol:copy", "pol:samehost", "pol:samedomain", "pol:ahost", "pol:adomain", "pol:no", "pol:nil", "pol:max", "hops-scripted:0", "hops-scripted:3", "host0-normalised-by-client",
-		"host-override:request", "host-override:client", "host-override=next-hop-host"}
+		"host-override:request", "host-override:client", "host-override=next-hop-host", "checkredirect-observed"}
 	if alt {
 		must = append(must, "altsvc-entry", "altsvc-entry-for-first-origin", "request-carried-by-alternative")
 	}
